@@ -1439,19 +1439,25 @@ type sysStore struct {
 	dir      string
 	fm       *fracmanager.FracManager
 	searcher *fracmanager.Searcher
+	pager    *fracmanager.Searcher // one fraction per iteration: the limit is re-computed between fractions
 	fetcher  *fracmanager.Fetcher
 }
+
+// sorted doc blocks of a sealed fraction hold about two documents: every sealed fraction has several blocks
+const sysDocBlockSize = 64
 
 func openStore(dir string) (*sysStore, error) {
 	fm := fracmanager.NewFracManager(&fracmanager.Config{
 		FracSize: 1 << 30, TotalSize: 1 << 34, ShouldReplay: true, DataDir: dir,
 		MaintenanceDelay: time.Hour,
+		SealParams:       frac.SealParams{DocBlockSize: sysDocBlockSize},
 	})
 	if err := fm.Load(context.Background()); err != nil {
 		return nil, err
 	}
 	fm.Start()
-	return &sysStore{dir: dir, fm: fm, searcher: fracmanager.NewSearcher(2, fracmanager.SearcherCfg{}), fetcher: fracmanager.NewFetcher(2)}, nil
+	return &sysStore{dir: dir, fm: fm, searcher: fracmanager.NewSearcher(2, fracmanager.SearcherCfg{}),
+		pager: fracmanager.NewSearcher(2, fracmanager.SearcherCfg{FractionsPerIteration: 1}), fetcher: fracmanager.NewFetcher(2)}, nil
 }
 
 type sysViolation struct{ class, what string }
@@ -1542,6 +1548,52 @@ func checkStore(s *sysStore, k int, have map[int]bool, crossFraction bool, stage
 				}
 				if fmt.Sprint(ga) != fmt.Sprint(expAgg) {
 					return &sysViolation{"aggregation-counts-repeats", fmt.Sprintf("%s: query %q aggregation %v, expected %v", stage, qu.q, ga, expAgg)}
+				}
+			}
+		}
+	}
+	// paged listing (no total / histogram / aggregation: the searcher stops as soon as the page is ensured), one
+	// fraction per iteration, every page size, both orders: the page is the top-k of the de-duplicated union
+	{
+		ast, err := parser.ParseQuery("service:s0 or service:s1 or service:s2", seq.TestMapping)
+		if err != nil {
+			return &sysViolation{"harness", "cannot parse paging query: " + err.Error()}
+		}
+		var all []seq.ID
+		for i := 0; i < k; i++ {
+			if have[i] {
+				all = append(all, sysDoc(i).id())
+			}
+		}
+		sizes := []int{}
+		for sz := 1; sz <= len(all)+1 && sz <= 14; sz++ {
+			sizes = append(sizes, sz)
+		}
+		if len(all) > 14 {
+			sizes = append(sizes, len(all)/2, len(all)-1, len(all), len(all)+1)
+		}
+		for _, asc := range []bool{false, true} {
+			order := seq.DocsOrderDesc
+			if asc {
+				order = seq.DocsOrderAsc
+			}
+			sort.Slice(all, func(a, b int) bool {
+				if asc {
+					return seq.Less(all[a], all[b])
+				}
+				return seq.Less(all[b], all[a])
+			})
+			for _, sz := range sizes {
+				for pi, sr := range []*fracmanager.Searcher{s.pager, s.searcher} {
+					qpr, err := sr.SearchDocs(ctx, fracs, processor.SearchParams{AST: ast, From: 0, To: seq.MID(math.MaxInt64), Limit: sz, Order: order})
+					if err != nil {
+						return &sysViolation{"search-error", fmt.Sprintf("%s: paged search size %d: %v", stage, sz, err)}
+					}
+					exp := all[:min(sz, len(all))]
+					if got := qpr.IDs.IDs(); fmtIDs(got) != fmtIDs(exp) {
+						return &sysViolation{"page-wrong", fmt.Sprintf("%s: page of size %d asc=%v (fractions per iteration: %s) lists %s, expected %s",
+							stage, sz, asc, []string{"1", "all"}[pi], fmtIDs(got), fmtIDs(exp))}
+					}
 				}
 			}
 		}
@@ -1897,6 +1949,13 @@ func main() {
 			{k: 4, ops: []string{"B0.1", "C4:0.1", "C3:2.3", "S"}},                  // concurrent repeats
 			{k: 4, ops: []string{"B0.1.2", "S", "B1.2.3", "S", "R"}},                // repeat lands in another fraction
 			{k: 3, ops: []string{"B0.1", "R", "B0.1.2", "R", "S"}},                  // repeat after restart (replayed positions)
+			// several fractions sealed one after the other in one process, every document fetched after ALL sealings
+			{k: 10, ops: []string{"B0.1.2.3", "S", "B4.5.6", "S", "B7.8.9.0", "S", "B1.2", "S"}},
+			{k: 9, ops: []string{"B0.1.2.3.4.5", "S", "B6", "S", "B7.8", "S"}},
+			// the retry lands in another fraction, its newest document is the repeated one, new documents right below it
+			{k: 7, ops: []string{"B6.1.0", "S", "B6.5.4.3", "S", "B2"}},
+			{k: 7, ops: []string{"B6.1.0", "S", "B6.5.4.3"}},
+			{k: 8, ops: []string{"B7.2.0", "S", "B7.6.5", "S", "B7.4.3.1", "R"}},
 		}
 		for _, c := range directed {
 			sysCases = append(sysCases, c)
